@@ -24,6 +24,7 @@ MANIFEST = {
              'C07_grown_row_no_loss (the row dtype cached by TypeBlocks.append of a table grown block by block is the common dtype or object: no cell is lost). '
              'Correspondence through the public interface: Series/Frame/Index reindex, shift, fillna*, assign (iloc/loc/bloc/column/row), insert, '
              'from_concat, from_overlay, from_records/from_dict/from_items, row consolidation (iloc[row], values, transpose, iter_array), IndexGO.append/extend, '
+             'Frame.assign.iloc[rows, cols](Frame) over value frames with columns of different dtypes/widths on every target layout, fillna_forward/backward(axis=1) across adjacent blocks of different dtype, '
              'FrameGO grown column by column (setitem, extend with Series/Frame, extend_items) then every row route (values, iter_array/iter_tuple/iter_series axis 1, iloc[row], transpose, to_pairs(1)) '
              'over a 43-dtype x 57-element grid and every block layout, each case evaluated inside Coq against M (result dtype + which cells survive) and S '
              '(every stored cell is the supplied cell; untouched columns keep their dtype); kernel sweeps of resolve_dtype (47x47), dtype_from_element, '
@@ -1143,6 +1144,163 @@ def frame_arr_cases(ctx):
 
 
 
+
+# ------------------------------------------------------------------------------------------- Frame value assigned into a Frame (by blocks)
+def from_via(a, mid_ds, idx):
+    d = dt(a.dtype)
+    mid = f'(concat_loop {dt(mid_ds[0])} {lit.lst([dt(x) for x in mid_ds[1:]])})'
+    return [f'(FromVia {d} {mid} {cv(a[i])})' for i in idx]
+
+
+def fop_assign_frame_value(td, v1d, v2d, layout, rows):
+    '''f.assign.iloc[rows, [0, 1]](Frame): TypeBlocks._assign_from_iloc_by_blocks.  A target slice of a 2-D block takes the dtype
+    resolve_dtype_iter(value block dtypes ..., block dtype); the value blocks are first joined by concat_resolved.'''
+    sf = _sf()
+    t = host(td)
+    v1, v2 = host(v1d)[:len(rows)], host(v2d)[:len(rows)]
+    f = zoo.frame_from_columns([t, na_free(t), OTHER], layout, columns=COLS3)
+    val = sf.Frame.from_items((('c0', v1), ('c1', v2)), index=list(rows))
+    r = f.assign.iloc[list(rows), [0, 1]](val)
+    boc = block_of_columns(layout)
+    keep_rows = [i for i in range(len(t)) if i not in rows]
+    targets = [t, na_free(t)]
+    cols = []
+
+    def merged(j, valarr, plan_ds, via):
+        cells, k = [], 0
+        for i in range(len(t)):
+            if i in rows:
+                cells += (from_via(valarr, via, [k]) if via else from_arr(valarr, [k]))
+                k += 1
+            else:
+                cells += from_arr(targets[j], [i])
+        return Col(p_iterdt(plan_ds), cells, colvals(r, COLS3[j]))
+    if boc[0] == boc[1]:      # both targeted columns in one 2-D block: one dtype over ALL value blocks and the block
+        ds = [v1.dtype, v2.dtype, t.dtype]
+        cols += [merged(0, v1, ds, [v1.dtype, v2.dtype]), merged(1, v2, ds, [v1.dtype, v2.dtype])]
+    else:
+        second_2d = layout[boc[1]][0] > 1     # c1 shares a 2-D block with c2: the targeted slice is still 2-D (width 1)
+        cols += [merged(0, v1, [v1.dtype, t.dtype], None), merged(1, v2, [v2.dtype, t.dtype], [v2.dtype] if second_2d else None)]
+    cols.append(keep_col(OTHER, colvals(r, 'c2')))
+    return cols, [A(t), A(v1), A(v2)]
+
+
+ASSIGN_VALUE_DTYPES = ['bool', 'int8', 'int64', 'uint64', 'float32', 'float64', 'complex128', '<U1', '<U4', 'S4', 'M8[D]/full', 'M8[ns]/full', 'm8[D]/full', 'object']
+ASSIGN_FIXED = [('<U1', '<U1', '<U4'), ('<U1', '<U4', '<U1'), ('int64', 'int64', 'float64'), ('int64', 'float64', 'int64'), ('float32', 'float32', 'float64'),
+                ('int8', 'int8', 'int64'), ('S1', 'S1', 'S4'), ('M8[D]/full', 'M8[D]/full', 'M8[ns]/full'), ('float32', 'int8', 'float64'), ('<U1', 'int64', '<U4'),
+                ('bool', 'bool', 'int8'), ('int32', 'float32', 'int32')]
+
+
+def assign_frame_cases(ctx):
+    grid = [(t, a, b) for t in HOSTS_FRAME for a in ASSIGN_VALUE_DTYPES for b in ASSIGN_VALUE_DTYPES]
+    sel = ASSIGN_FIXED + (grid if ctx.tier == 'thorough' else ctx.rng.sample(grid, ctx.n(25, 0)))
+    for td, v1d, v2d in sel:
+        t = host(td)
+        kinds = [host(x).dtype.kind for x in (td, v1d, v2d)] + [OTHER.dtype.kind]
+        if any(excluded_pair(x, y) for x in kinds for y in kinds):
+            continue
+        for layout in layouts3(t):
+            for rows in ((0, 2), (1,)) if (td, v1d, v2d) in ASSIGN_FIXED else ((0, 2),):
+                desc = {'target_dtype': td, 'target': {'c0': rp(HOSTS[td]), 'c1': 'c0 without missing values', 'c2': '[10, 20, 30] int64'},
+                        'value_frame': {'c0': f'{v1d} {rp(HOSTS[v1d][:len(rows)])}', 'c1': f'{v2d} {rp(HOSTS[v2d][:len(rows)])}'},
+                        'call': f'f.assign.iloc[{list(rows)}, [0, 1]](value_frame)', 'layout': zoo.layout_str(layout)}
+                try:
+                    cols, sources = fop_assign_frame_value(td, v1d, v2d, layout, rows)
+                except Exception as e:  # noqa
+                    cols, sources = e, []
+                c = mk_case(ctx, 'api:frame-assign-frame', 'assign_frame_value', desc, cols, sources, tags={'layout': zoo.layout_str(layout)},
+                            nontrivial=len({td.split('/')[0], v1d.split('/')[0], v2d.split('/')[0]}) > 1)
+                if c is not None:
+                    yield c
+
+
+# ------------------------------------------------------------------------------------------- directional fill along axis 1 across blocks
+NA_CAPABLE = ['float16', 'float32', 'float64', 'complex64', 'complex128', 'M8[Y]', 'M8[W]', 'M8[D]', 'M8[h]', 'M8[s]', 'M8[ns]',
+              'm8[Y]', 'm8[D]', 'm8[s]', 'm8[ns]', 'object']
+EXTRA_LEFT = {'int32/big': np.array([16777217, 5, 16777217], dtype=np.int32)}
+
+
+def left_column(ld):
+    '''The neighbour column the fill comes from: no missing value, rows ordered so that the filled rows take values whose narrowing is visible.'''
+    if ld in EXTRA_LEFT:
+        a = EXTRA_LEFT[ld].copy()
+    else:
+        h = na_free(host(ld))
+        a = np.array([h[1], h[0], h[2] if not isna(host(ld)[2]) else h[0]], dtype=h.dtype) if h.dtype.kind != 'O' else _obj_array([h[1], h[0], h[2]])
+    a.flags.writeable = False
+    return a
+
+
+def right_columns(rd):
+    b = host(rd)
+    na = b[2]
+    r0 = b.copy()
+    r0[0] = na                       # missing at rows 0 and 2: the entry edge of the block
+    r0.flags.writeable = False
+    return r0, na_free(b)
+
+
+def fop_directional(ld, rd, layout, forward):
+    L = left_column(ld)
+    r0, r1 = right_columns(rd)
+    if forward:
+        cols_in, names = [L, r0, r1], ('L', 'R0', 'R1')
+    else:
+        cols_in, names = [r1, r0, L], ('R1', 'R0', 'L')
+    f = zoo.frame_from_columns(cols_in, layout, columns=names)
+    r = f.fillna_forward(axis=1) if forward else f.fillna_backward(axis=1)
+    boc = block_of_columns(layout)
+    pos = {n: j for j, n in enumerate(names)}
+    first_block = boc[pos['L']]       # the block the fill starts from never changes dtype
+    hit_block = boc[pos['R0']]
+    retyped = hit_block != first_block
+    na0 = _na_mask(r0)
+    # the bridged values are written cell by cell (mask / item assignment): an object block keeps the scalar as it is
+    # a 1-D block takes them by mask assignment of the neighbour ARRAY (array conversion)
+    one_d = not layout[hit_block][1]
+    cells_r0 = sum((((from_arr(L, [i]) if one_d else from_elem(L[i])) if na0[i] else from_arr(r0, [i])) for i in range(len(r0))), [])
+    out = [keep_col(L, colvals(r, 'L'))]
+    out.append(Col(p_pair(L.dtype, r0.dtype) if retyped else p_keep(r0.dtype), cells_r0, colvals(r, 'R0')))
+    if boc[pos['R1']] == hit_block and retyped:
+        out.append(Col(p_pair(L.dtype, r1.dtype), from_arr(r1), colvals(r, 'R1'), keep=r1.dtype))
+        tags = {'finding': 'C07-block-retype'} if L.dtype != r1.dtype else {}
+    else:
+        out.append(keep_col(r1, colvals(r, 'R1')))
+        tags = {}
+    return out, tags, [A(r0)] + ([A(L)] if one_d else [E(L[i]) for i in range(len(r0)) if na0[i]])
+
+
+DIRECTIONAL_FIXED = [('float64', 'float32'), ('float32', 'float64'), ('int32/big', 'float32'), ('int32', 'float32'), ('int64', 'float64'), ('M8[h]', 'M8[D]'),
+                     ('M8[D]', 'M8[h]'), ('M8[ns]/full', 'M8[s]'), ('m8[s]', 'm8[D]'), ('complex128', 'complex64'), ('float64', 'float16'), ('<U4', 'object'),
+                     ('int8', 'float16'), ('uint64', 'float64')]
+
+
+def directional_cases(ctx):
+    grid = [(l, r) for l in list(HOSTS_FRAME) + ['M8[h]', 'M8[s]', 'float32', 'int32', 'm8[s]'] for r in NA_CAPABLE]
+    sel = DIRECTIONAL_FIXED + (grid if ctx.tier == 'thorough' else ctx.rng.sample(grid, ctx.n(16, 0)))
+    for ld, rd in sel:
+        L = left_column(ld)
+        b = host(rd)
+        if excluded_pair(L.dtype.kind, b.dtype.kind):
+            continue
+        for forward in (True, False):
+            dts = [L.dtype, b.dtype, b.dtype] if forward else [b.dtype, b.dtype, L.dtype]
+            for layout in zoo.layouts_for(dts):
+                desc = {'left_dtype': ld, 'left': rp(L.tolist() if L.dtype.kind not in 'Mm' else [str(x) for x in L]), 'right_dtype': rd,
+                        'right': 'R0 = host column with missing values at rows 0 and 2, R1 = the same without missing values: ' + rp(HOSTS[rd]),
+                        'call': f'fillna_{"forward" if forward else "backward"}(axis=1)', 'column_order': 'L R0 R1' if forward else 'R1 R0 L',
+                        'layout': zoo.layout_str(layout)}
+                tags = {'layout': zoo.layout_str(layout)}
+                try:
+                    cols, extra, sources = fop_directional(ld, rd, layout, forward)
+                    tags.update(extra)
+                except Exception as e:  # noqa
+                    cols, sources = e, []
+                c = mk_case(ctx, 'api:frame-directional', 'fillna_forward_axis1' if forward else 'fillna_backward_axis1', desc, cols, sources, tags=tags,
+                            nontrivial=L.dtype != b.dtype)
+                if c is not None:
+                    yield c
+
 # ------------------------------------------------------------------------------------------- FrameGO grown column by column
 def p_grown(ds):
     return f'(PGrown {dt(ds[0])} {lit.lst([dt(d) for d in ds[1:]])})'
@@ -1497,4 +1655,6 @@ def cases(ctx):
     yield from frame_elem_cases(ctx)
     yield from frame_arr_cases(ctx)
     yield from grown_cases(ctx)
+    yield from assign_frame_cases(ctx)
+    yield from directional_cases(ctx)
     yield from iter_cases(ctx)
